@@ -119,7 +119,9 @@ func (p *PostingsList) OrInto(receiver *roaring.Bitmap) {
 // Iterator returns an iterator for this postings list
 func (p *PostingsList) Iterator(includeFreq, includeNorm, includeLocs bool,
 	prealloc segment.PostingsIterator) (segment.PostingsIterator, error) {
-	if p.normBits1Hit == 0 && p.postings == nil {
+	// a reused (preallocated) list that was re-initialised for an unknown
+	// term or field keeps its cleared bitmap: it is empty as well
+	if p.normBits1Hit == 0 && (p.postings == nil || p.postings.IsEmpty()) {
 		return emptyPostingsIterator, nil
 	}
 
